@@ -106,6 +106,7 @@ type machine struct {
 	hadReport   map[string]bool // weeks that had a report of any kind before the round
 	seenCalls   int
 	seenReqs    int
+	lastFsState int
 	cleanSeq    int // requests before this index precede the latest gotelemetry clean
 	killsOn     bool
 	faultsOn    bool
@@ -341,6 +342,7 @@ func scenarioMachine(c *hlib.RunCtx) *hlib.Violation {
 		m.scanCalls()
 		m.scanRequests()
 		m.maybeKill(tk)
+		m.abstractState()
 	}
 	for r := 0; r < rounds && m.viol == nil; r++ {
 		m.round = r
@@ -500,3 +502,43 @@ func (m *machine) runRound(hist *[]string) {
 }
 
 var _ = sort.Strings
+
+// abstractState folds the directory's shape (which kinds of files exist per week:
+// counter files, ready / local / uploaded reports, locks, staging files) and the
+// number of live uploaders into a hash: the "distinct states reached" measure.
+func (m *machine) abstractState() {
+	if m.s.FsCalls == m.lastFsState {
+		return
+	}
+	m.lastFsState = m.s.FsCalls
+	h := uint64(14695981039346656037)
+	mix := func(x string) {
+		for i := 0; i < len(x); i++ {
+			h = (h ^ uint64(x[i])) * 1099511628211
+		}
+		h = (h ^ 0xff) * 1099511628211
+	}
+	for _, dir := range []string{m.loc, m.upl} {
+		ents, _ := os.ReadDir(dir)
+		for _, e := range ents {
+			n := e.Name()
+			switch {
+			case strings.HasSuffix(n, ".v1.count"):
+				mix("count")
+			case strings.HasSuffix(n, ".lock"):
+				mix("lock")
+			case strings.Contains(n, ".tmp"):
+				mix("staging")
+			case strings.HasPrefix(n, "local.") && strings.HasSuffix(n, ".json"):
+				mix("local-report")
+			case strings.HasSuffix(n, ".json") && dir == m.upl:
+				mix("uploaded")
+			case strings.HasSuffix(n, ".json"):
+				mix("ready")
+			}
+		}
+		mix("|")
+	}
+	mix(fmt.Sprint(len(m.s.Live())))
+	m.c.StateHs[h] = true
+}
